@@ -43,6 +43,12 @@ class Scratch:
                                '--exclude', '/*/target', REPO + '/', self.path + '/'])
         return self
 
+    def refresh(self):
+        """Back to the pristine working tree of /repo (undoes injections and rewrites of earlier units;
+        build output is kept)."""
+        subprocess.check_call(['rsync', '-a', '--delete', '--exclude', '/target', '--exclude', '.git', '--exclude', '/*/target',
+                               '--exclude', '/zz_*', '--exclude', '/kani-*.json', REPO + '/', self.path + '/'])
+
     def __exit__(self, *exc):
         if not self.keep:
             shutil.rmtree(self.path, ignore_errors=True)
